@@ -122,13 +122,60 @@ func smRun(h []int) (kind, detail string, mod *ref.MapModel) {
 		smOps[o].mod(mod)
 	}
 	kind, detail = smCompare(m.SourceMap(), mod)
+	if kind != "" || len(h) < 2 {
+		return
+	}
+	// the same history with the map requested after every step: asking for the map is an observation, it
+	// must not change what later steps produce
+	m2 := sourcemap.New()
+	mod2 := ref.NewMapModel()
+	for i, o := range h {
+		smOps[o].impl(m2)
+		smOps[o].mod(mod2)
+		if i < len(h)-1 {
+			_ = m2.SourceMap()
+		}
+	}
+	if k, d := smCompare(m2.SourceMap(), mod2); k != "" {
+		return "observed-" + k, "with SourceMap() requested after every step: " + d, mod
+	}
 	return
+}
+
+// smLong runs long regular histories (buffer / batch boundaries): n segments, a line break every `per`
+// segments (0: never), every `named`-th segment named (0: none), columns advancing by adv.
+func smLong(n, per, named, adv int) (kind, detail string) {
+	defer func() {
+		if r := recover(); r != nil {
+			kind, detail = "panic", fmt.Sprint(r)
+		}
+	}()
+	m := sourcemap.New()
+	mod := ref.NewMapModel()
+	for i := 0; i < n; i++ {
+		if named > 0 && i%named == 0 {
+			nm := fmt.Sprintf("n%d", i%7)
+			m.AddNamedMapping(i/5, (i*3)%11, nm)
+			mod.AddNamed(i/5, (i*3)%11, nm)
+		} else {
+			m.AddMapping(i/5, (i*3)%11)
+			mod.Add(i/5, (i*3)%11)
+		}
+		m.AdvanceColumn(adv)
+		mod.AdvCol(adv)
+		if per > 0 && i%per == per-1 {
+			m.AdvanceLine()
+			mod.AdvLine()
+		}
+	}
+	return smCompare(m.SourceMap(), mod)
 }
 
 type smPayload struct {
 	Hist  []int    `json:"history,omitempty"`
 	Names []string `json:"op_names,omitempty"`
 	VLQ   *smVLQ   `json:"vlq,omitempty"`
+	Long  []int    `json:"long,omitempty"` // n, per, named, adv
 }
 type smVLQ struct {
 	Field string `json:"field"`
@@ -286,6 +333,25 @@ func c09Run(c *core.Ctx) {
 		}
 	}
 
+	// (2b) long regular histories around typical buffer sizes
+	for _, n := range []int{15, 16, 17, 63, 64, 65, 255, 256, 257, 511, 512, 513, 1023, 1024, 1025, 2047, 2048, 2049, 4095, 4096, 4097, 8193} {
+		for _, per := range []int{0, 1, 7, 100} {
+			for _, named := range []int{0, 1, 3} {
+				for _, adv := range []int{1, 17} {
+					if !c.Next() {
+						continue
+					}
+					c.Inc("long_histories")
+					c.Count("ops_executed", int64(2*n))
+					if k, d := smLong(n, per, named, adv); k != "" {
+						pl, _ := json.Marshal(smPayload{Long: []int{n, per, named, adv}})
+						c.Violate(core.Violation{Kind: "long-" + k, Case: fmt.Sprintf("%d segments, line break every %d, every %d-th named, column advance %d", n, per, named, adv), Detail: core.Short(d, 600), Payload: pl, Size: n})
+					}
+				}
+			}
+		}
+	}
+
 	// (3) explicit-state BFS with abstract-state dedup beyond the stateless depth (shard 0 only, so that
 	// the state count is a count of distinct abstract states)
 	if c.Shard == 0 {
@@ -366,6 +432,12 @@ func c09Replay(pl json.RawMessage) (string, []core.Violation) {
 		}
 		return "vlq probe ok", nil
 	}
+	if len(p.Long) == 4 {
+		if k, d := smLong(p.Long[0], p.Long[1], p.Long[2], p.Long[3]); k != "" {
+			return "long history", []core.Violation{{Kind: "long-" + k, Case: fmt.Sprint(p.Long), Detail: core.Short(d, 600)}}
+		}
+		return "long history ok", nil
+	}
 	k, d, _ := smRun(p.Hist)
 	out := "history: " + smHistString(p.Hist)
 	if k != "" {
@@ -377,7 +449,7 @@ func c09Replay(pl json.RawMessage) (string, []core.Violation) {
 func init() {
 	core.Register(&core.PropSpec{
 		ID: "C09", Level: "model_checking",
-		Rule:     "all operation histories up to the stated depth over 25 builder calls (5 source positions incl. decreasing and large ones, 2 names, column advances, 7 strings mixing LF/CRLF/CR, line advance), each replayed on a fresh real SourceMapper in lock-step with a list model; mappings decoded by an independent Base64-VLQ decoder; plus every delta in [-2^20,2^20] and +-2^k(+-1), k<=31 per numeric field, all 70x70 name-index deltas across an unnamed segment; BFS with abstract-state dedup beyond the stateless depth. non-trivial = history with >=2 segments and a line break or a name",
+		Rule:     "all operation histories up to the stated depth over 25 builder calls (5 source positions incl. decreasing and large ones, 2 names, column advances, 7 strings mixing LF/CRLF/CR, line advance), each replayed on a fresh real SourceMapper in lock-step with a list model; mappings decoded by an independent Base64-VLQ decoder; plus every delta in [-2^20,2^20] and +-2^k(+-1), k<=31 per numeric field, all 70x70 name-index deltas across an unnamed segment; every history also with SourceMap() requested after every step (an observation must not change later output); long regular histories of 15..8193 segments around power-of-two sizes x line-break period x naming period x column advance; BFS with abstract-state dedup beyond the stateless depth. non-trivial = history with >=2 segments and a line break or a name",
 		Assume:   []string{"columns are counted per byte on ASCII input (non-ASCII column units are C08's subject)", "abstract-state dedup in the BFS part assumes the encoder's future depends only on (position, names, last segment, last name index)"},
 		QuickSec: 100, ThorSec: 900, Run: c09Run, Replay: c09Replay,
 		Evals: "histories", Nontriv: "nontrivial", States: "bfs_states", Trans: "bfs_transitions",
